@@ -3,6 +3,7 @@ import json
 import os
 import shutil
 import subprocess
+import time
 from concurrent.futures import ThreadPoolExecutor
 import vlib
 
@@ -35,12 +36,14 @@ def run_cli(workdir, jobs, timeout=15, workers=None):
         env.update(j.get("env", {}))
         cwd = os.path.join(proj, j.get("cwd", ""))
         res = {"timeout": False}
+        t0 = time.time()
         try:
             p = subprocess.run([binp] + j["argv"], cwd=cwd, env=env, stdin=subprocess.DEVNULL, stdout=subprocess.PIPE,
                                stderr=subprocess.PIPE, timeout=j.get("timeout", timeout))
             res.update(rc=p.returncode, out=p.stdout.decode("utf-8", "replace"), err=p.stderr.decode("utf-8", "replace"))
         except subprocess.TimeoutExpired as e:
             res.update(rc=None, timeout=True, out=(e.stdout or b"").decode("utf-8", "replace"), err=(e.stderr or b"").decode("utf-8", "replace"))
+        res["wall_ms"] = int((time.time() - t0) * 1000)
         res["files"] = {}
         for rel in j.get("keep", []):
             p = os.path.join(proj, rel)
